@@ -294,12 +294,12 @@ void h_segment_alloc_full(void) {
 #else
   mem_zero = false; { mi_segment_t g; GARB = g; S.seg = GARB; }     /* recycled memory: every byte of the header arbitrary */
 #endif
-  const size_t info = (MI_SECURE > 0 ? 2 : 1);   /* info slices of this build (checked below) */
+  size_t info = 0; (void)mi_segment_calculate_slices(0, &info);      /* info slices of this build (constant; the size computation itself is decided by huge_geometry) */
   mi_segment_t* seg; mi_page_t* page = NULL;
 #if REQ == 0
   seg = mi_segment_alloc(0, 0, (mi_arena_id_t)0, &STLD, NULL);
 #else
-  const size_t total = (REQ + (ALIGN ? MI_SEGMENT_SIZE - info * MI_SEGMENT_SLICE_SIZE : 0) + info * MI_SEGMENT_SLICE_SIZE + (MI_SECURE > 0 ? 2 * 4096 : 0) + MI_SEGMENT_SLICE_SIZE - 1) / MI_SEGMENT_SLICE_SIZE;   /* slices (as the code computes; compared below) */
+  size_t info2 = 0; const size_t total = mi_segment_calculate_slices((size_t)REQ + (ALIGN ? MI_SEGMENT_SIZE - info * MI_SEGMENT_SLICE_SIZE : 0), &info2);   /* slices for the request plus the alignment prefix */
   reset_lo = info * MI_SEGMENT_SLICE_SIZE + sizeof(mi_block_t); reset_hi = (ALIGN ? MI_SEGMENT_SIZE : reset_lo);
   page = mi_segment_huge_page_alloc(REQ, ALIGN, (mi_arena_id_t)0, &STLD);
   seg = (page == NULL ? NULL : &S.seg);
@@ -350,7 +350,7 @@ void h_segment_alloc_full(void) {
     CHECK(n_reset2 == (seg->allow_decommit ? 1 : 0), "prefix reset when decommit is allowed"); }
 #endif
   CHECK(_mi_segment_page_of(seg, (uint8_t*)seg + info * MI_SEGMENT_SLICE_SIZE) == page && _mi_segment_page_of(seg, (uint8_t*)seg + info * MI_SEGMENT_SLICE_SIZE + (REQ > 77 ? 77 : 0)) == page
-        && (total <= info + 1 || _mi_segment_page_of(seg, (uint8_t*)seg + (info + 1) * MI_SEGMENT_SLICE_SIZE + 77) == page), "C16: interior addresses map back to the huge page");
+        && (page->slice_count <= 1 || _mi_segment_page_of(seg, (uint8_t*)seg + (info + 1) * MI_SEGMENT_SLICE_SIZE + 77) == page), "C16: interior addresses map back to the huge page");
 #if !(ARENA_FAIL || COMMIT_FAIL_AT)
   WITNESS("huge");
 #endif
